@@ -1,9 +1,9 @@
-\* C05 stage M: 4 frames, window 2, the reader closes after 3 consecutive bad frames, <= 2 faults anywhere.
+\* C05 stage M: 4 frames, window 2, the reader closes after 3 consecutive bad frames, <= 2 faults anywhere, the link may have predecessors (prev-link).
 CONSTANTS
   N = 4
   W = 2
   CloseAfter = 3
   MaxFaults = 2
 INIT Init
-NEXT Next
+NEXT NextPrev
 INVARIANTS OnlySent OnceOnly NothingAltered
